@@ -91,19 +91,25 @@ VERBATIM = '[verbatim_when_disabled C07] self.store_s().disabled_s({n}.span_s())
 EXTRA = {
     'convert_expr': {'ensures': [VERBATIM, '[leaf_kinds_exact C10 C08] !self.store_s().disabled_s({n}.span_s()) && is_exact_leaf_kind({n}.kind_s()) ==> r@ == txt({n}.text_s())'], 'serves': 'C07 C10'},
     'convert_expr_impl': {'ensures': ['[leaf_kinds_exact C10 C08] is_exact_leaf_kind({n}.kind_s()) ==> r@ == txt({n}.text_s())'], 'serves': 'C10',
-                          'proof': ['reveal_strlit("none"); reveal_strlit("auto"); reveal_strlit("break"); reveal_strlit("continue");']},
+                          'proof': ['reveal_strlit("none"); reveal_strlit("auto"); reveal_strlit("break"); reveal_strlit("continue"); pf_loop_kw({n});',
+                                    'assert(!is_inner_kind({n}.kind_s()) && !is_ws_kind({n}.kind_s()) ==> w_ok(txt({n}.text_s()), sig_leaves({n})));',
+                                    'assert("none"@[0] == \'n\' && "auto"@[0] == \'a\' && "break"@[0] == \'b\' && "continue"@[0] == \'c\');',
+                                    'assert({n}.kind_s() == SyntaxKind::None ==> w_ok(txt("none"@), sig_leaves({n})));',
+                                    'assert({n}.kind_s() == SyntaxKind::Auto ==> w_ok(txt("auto"@), sig_leaves({n})));',
+                                    'assert({n}.kind_s() == SyntaxKind::LoopBreak ==> w_ok(txt("break"@), sig_leaves({n})));',
+                                    'assert({n}.kind_s() == SyntaxKind::LoopContinue ==> w_ok(txt("continue"@), sig_leaves({n})));']},
     'convert_math': {'ensures': [VERBATIM], 'serves': 'C07 C09'},
     'convert_ident': {'ensures': [LEAF_EXACT], 'serves': 'C10'},
     'convert_strong': {'proof': ['reveal_strlit("*");']},
     'convert_emph': {'proof': ['reveal_strlit("_");']},
     'convert_ref': {'proof': ['reveal_strlit("@"); reveal_with_fuel(pieces, 4);'], 'ensures': ['[target_exact C10] pieces(r@).len() >= 2 && pieces(r@)[0] == txt("@"@) && pieces(r@)[1] == txt(ast::Ref({n}).target_s())'], 'serves': 'C10'},
-    'convert_expr_flow': {'requires': ['{n}.kind_s() != SyntaxKind::Markup']},
+    'convert_expr_flow': {'requires': ['{n}.kind_s() != SyntaxKind::Markup', '[only_for_keyword_expression_nodes] matches!({n}.kind_s(), SyntaxKind::Contextual | SyntaxKind::Conditional | SyntaxKind::WhileLoop | SyntaxKind::FuncReturn | SyntaxKind::ModuleInclude)']},
     'convert_list_item_like': {'requires': ['matches!({n}.kind_s(), SyntaxKind::ListItem | SyntaxKind::EnumItem | SyntaxKind::TermItem)']},
     'convert_binary': {'closures': ['@closure 0 ret "(d: ArenaDoc<\'a>)"', '  ensures', '    - doc_closed(d@, self.unit_s())']},
     'convert_text': {'ensures': ['[text_exact C08 C10] r@ == txt({n}.full_text_s())'], 'serves': 'C08 C10'},
     'convert_space': {'ensures': ['[space_or_break C08 C09] r@ == (if has_newline_s({n}.text_s()) { DocV::Hardline } else { sp() })'], 'serves': 'C08 C09'},
     'convert_parbreak': {'ensures': ['[break_count C08] r@ == repeat_doc(DocV::Hardline, count_newlines_s({n}.text_s()))'], 'serves': 'C08',
-                         'proof': ['lemma_repeat_doc_hardline(count_newlines_s({n}.text_s()), self.unit_s());']},
+                         'proof': ['lemma_repeat_doc_hardline(count_newlines_s({n}.text_s()), self.unit_s()); lemma_words_repeat_hardline(count_newlines_s({n}.text_s()));']},
     'convert_pattern': {'ensures': [VERBATIM], 'serves': 'C07', 'proof': ['reveal_strlit("_");']},
     'convert_code_block': {'ensures': ['[verbatim_when_body_disabled C07] code_body_disabled(self.store_s(), {n}) ==> r@ == txt({n}.full_text_s())'], 'serves': 'C07'},
 }
@@ -139,6 +145,101 @@ FLOW_EXTRA = {
     ],
 }
 
+# ---- W (C01 / C06): `unmarked(node) ==> w_ok(r@, sig_leaves(node))` -- nothing added, dropped, duplicated or reordered.
+# Proved for the converters listed here; for every other converter the same clause is ASSUMED at its call sites (`assumed`),
+# never proved at its definition, and reported as such in the evidence.
+W_PROVED = {
+    # flow-based converters (closure contracts below)
+    'convert_spread', 'convert_unary', 'convert_let_binding', 'convert_destruct_assignment', 'convert_expr_flow', 'convert_set_rule',
+    'convert_show_rule', 'convert_heading', 'convert_list_item_like', 'convert_math_attach', 'convert_math_frac', 'convert_math_root',
+    'convert_import_item_path', 'convert_import_item_renamed',
+    # wrappers
+    'convert_contextual', 'convert_conditional', 'convert_while_loop', 'convert_return', 'convert_include',
+    'convert_list_item', 'convert_enum_item', 'convert_term_item',
+    # leaves and dispatchers
+    'convert_text', 'convert_space', 'convert_parbreak', 'convert_ident', 'convert_expr', 'convert_expr_impl', 'convert_pattern', 'convert_array_item', 'convert_dict_item',
+    'convert_param', 'convert_destructuring_item',
+}
+# GRAMMAR (parser fact PF10, trusted, validated on the corpus by `vp-replay FACTS`): besides expressions, whitespace, comments
+# and `#`, a node of the given kind has only children of the listed kinds.  The same table yields the spec function
+# `child_kind_ok` (prelude/grammar_gen.rs) and the domain of each flow producer closure.
+GRAMMAR = {
+    'Spread': ['Dots'],
+    'Unary': ['Plus', 'Minus', 'Not'],
+    'Binary': ['Plus', 'Minus', 'Star', 'Slash', 'And', 'Or', 'EqEq', 'ExclEq', 'Lt', 'LtEq', 'Gt', 'GtEq', 'Eq', 'PlusEq', 'HyphEq', 'StarEq', 'SlashEq', 'In', 'Not'],
+    'LetBinding': ['Let', 'Eq', 'Destructuring', 'Underscore'],
+    'DestructAssignment': ['Eq', 'Destructuring', 'Underscore'],
+    'SetRule': ['Set', 'Args', 'If'],
+    'ShowRule': ['Show', 'Colon'],
+    'Heading': ['HeadingMarker', 'Markup'],
+    'ListItem': ['ListMarker', 'Markup', 'Parbreak'],
+    'EnumItem': ['EnumMarker', 'Markup', 'Parbreak'],
+    'TermItem': ['TermMarker', 'Markup', 'Colon', 'Parbreak'],
+    'MathAttach': ['Underscore', 'Hat'],
+    'MathFrac': ['Slash'],
+    'MathRoot': ['Root'],
+    'ImportItemPath': ['Dot'],
+    'RenamedImportItem': ['ImportItemPath', 'As'],
+    'Contextual': ['Context'],
+    'Conditional': ['If', 'Else'],
+    'WhileLoop': ['While'],
+    'FuncReturn': ['Return'],
+    'ModuleInclude': ['Include'],
+    'FieldAccess': ['Dot'],
+}
+# the kinds of the node each flow converter is called on
+FLOW_NODEKINDS = {
+    'convert_spread': ['Spread'], 'convert_unary': ['Unary'], 'convert_binary': ['Binary'], 'convert_let_binding': ['LetBinding'],
+    'convert_destruct_assignment': ['DestructAssignment'], 'convert_set_rule': ['SetRule'], 'convert_show_rule': ['ShowRule'],
+    'convert_heading': ['Heading'], 'convert_list_item_like': ['ListItem', 'EnumItem', 'TermItem'],
+    'convert_math_attach': ['MathAttach'], 'convert_math_frac': ['MathFrac'], 'convert_math_root': ['MathRoot'],
+    'convert_import_item_path': ['ImportItemPath'], 'convert_import_item_renamed': ['RenamedImportItem'],
+    'convert_expr_flow': ['Contextual', 'Conditional', 'WhileLoop', 'FuncReturn', 'ModuleInclude'],
+    'convert_field_access_plain': ['FieldAccess'],
+}
+
+
+# parents below which no (other) expression occurs: only the listed kinds
+NO_EXPR_PARENTS = {
+    'Heading': ['HeadingMarker', 'Markup'],
+    'ListItem': ['ListMarker', 'Markup', 'Parbreak'],
+    'EnumItem': ['EnumMarker', 'Markup', 'Parbreak'],
+    'TermItem': ['TermMarker', 'Markup', 'Colon', 'Parbreak'],
+    'ImportItemPath': ['Dot', 'Ident'],
+    'RenamedImportItem': ['ImportItemPath', 'As', 'Ident'],
+}
+GRAMMAR.update(NO_EXPR_PARENTS)
+
+
+def flow_domain(fn):
+    ks = []
+    for pk in FLOW_NODEKINDS.get(fn, []):
+        for k in GRAMMAR[pk]:
+            if k not in ks:
+                ks.append(k)
+    return ks
+
+
+def write_grammar(here):
+    lines = ['// GENERATED by contracts/gen_converters.py from its GRAMMAR table -- parser fact PF10 (trusted; validated by `vp-replay FACTS`)',
+             '/// kinds that may occur below any node: expressions, whitespace, comments and `#`',
+             'pub open spec fn trivia_child_kind(k: SyntaxKind) -> bool { is_ws_kind(k) || is_comment_kind(k) || k == SyntaxKind::Hash }',
+             'pub open spec fn common_child_kind(k: SyntaxKind) -> bool { ast::expr_kind(k) || trivia_child_kind(k) }',
+             '/// parents below which expressions occur only if listed',
+             'pub open spec fn no_expr_parent(k: SyntaxKind) -> bool { matches!(k, %s) }' % ' | '.join('SyntaxKind::' + k for k in NO_EXPR_PARENTS),
+             'pub open spec fn child_kind_ok(parent: SyntaxKind, child: SyntaxKind) -> bool {',
+             '    trivia_child_kind(child) || (ast::expr_kind(child) && !no_expr_parent(parent)) || match parent {']
+    for pk, ks in GRAMMAR.items():
+        lines.append('        SyntaxKind::%s => matches!(child, %s),' % (pk, ' | '.join('SyntaxKind::' + k for k in ks)))
+    lines += ['        _ => true,', '    }', '}',
+              '#[verifier::external_body]',
+              'pub proof fn pf_grammar(n: &SyntaxNode)',
+              '    requires tree_wf(n),',
+              '    ensures forall|j: int| 0 <= j < n.children_s().len() ==> child_kind_ok(n.kind_s(), (#[trigger] n.children_s()[j]).kind_s()),',
+              '{}', '']
+    open(os.path.join(here, '..', 'prelude', 'grammar_gen.rs'), 'w').write('\n'.join(lines))
+
+
 # list-based converters: ordinal of the item-converter closure and the item type
 LISTC = {
     'convert_array': (2, 'ArrayItem', ['(', ')', ',', '']),
@@ -172,9 +273,12 @@ def main():
         out.append('    - [comment_safe C04 C06] %s(r@)' % ('t_safe' if fn in MAY_OPEN else 't_closed'))
         for e in ex.get('ensures', []):
             out.append('    - ' + e.replace('{n}', n))
+        out.append('    - [words_preserved%s C01 C06] unmarked(self.store_s(), %s) ==> w_ok(r@, sig_leaves(%s))' % ('' if fn in W_PROVED else ' assumed', n, n))
         # standard proof prologue: parser facts for this node, and enough fuel for the abstract interpretations
         out.append('@insert body-start')
         out.append('    proof { pf_leaf_text(%s); pf_children(%s); pf_line_comments(%s); reveal_with_fuel(tr, 4); reveal_with_fuel(nest_ok, 4); reveal_with_fuel(plain_lines, 4); }' % (n, n, n))
+        if fn in W_PROVED:
+            out.append('    proof { pf_sig(%s); pf_token_text(%s); pf_unmarked(self.store_s(), %s); pf_grammar(%s); reveal_with_fuel(words, 4); reveal_with_fuel(alt_ok, 4); }' % (n, n, n, n))
         for pl in ex.get('proof', []):
             out.append('    proof { %s }' % pl.replace('{n}', n))
         if fn in FLOW:
@@ -187,7 +291,16 @@ def main():
             out.append('    - !is_comment_kind(%s.kind_s())' % cp)
             out.append('  ensures')
             out.append('    - [producer_docs_closed C04 C06 C12] fitem.0 matches Some(rp) ==> doc_closed(rp.doc@, self.unit_s())')
-            out.append('    proof: pf_leaf_text(%s); pf_children(%s); reveal_with_fuel(tr, 4); reveal_with_fuel(nest_ok, 4); lemma_repeat_doc_hardline(count_newlines_s(%s.text_s()), self.unit_s());' % (cp, cp, cp))
+            if fn in W_PROVED:
+                noexpr = all(pk in NO_EXPR_PARENTS for pk in FLOW_NODEKINDS.get(fn, ['?']))
+                dom = ' || '.join([('trivia_child_kind(%s.kind_s())' if noexpr else 'common_child_kind(%s.kind_s())') % cp] + ['%s.kind_s() == SyntaxKind::%s' % (cp, k) for k in flow_domain(fn)])
+                out.append('    - [producer_words_preserved C01 C06] unmarked(self.store_s(), %s) && producer_kind(%s.kind_s()) && (%s) ==> flow_item_w(fitem, %s)' % (cp, cp, dom, cp))
+            wproof = ''
+            if fn in W_PROVED:
+                alllits = list(lits) + ['=', ':', '..', '=>', '*', '.', '#', ',', ';', '_', '(', ')', '{', '}']
+                wproof = (' pf_sig(%s); pf_token_text(%s); pf_unmarked(self.store_s(), %s); reveal_with_fuel(words, 4); reveal_with_fuel(alt_ok, 4); reveal_with_fuel(sig_concat, 2);'
+                          ' lemma_words_repeat_hardline(count_newlines_s(%s.text_s())); ' % (cp, cp, cp, cp)) + ' '.join('reveal_strlit("%s");' % l for l in alllits)
+            out.append('    proof: pf_leaf_text(%s); pf_children(%s); reveal_with_fuel(tr, 4); reveal_with_fuel(nest_ok, 4); lemma_repeat_doc_hardline(count_newlines_s(%s.text_s()), self.unit_s());%s' % (cp, cp, cp, wproof))
         if fn in LISTC:
             k, ty, lits = LISTC[fn]
             out.append('    proof { %s reveal_with_fuel(tr, 4); }' % ' '.join('reveal_strlit("%s");' % l for l in lits))
@@ -204,6 +317,7 @@ def main():
         out.append('@end')
         out.append('')
     here = os.path.dirname(os.path.abspath(__file__))
+    write_grammar(here)
     with open(os.path.join(here, 'core', 'gen_converters.vc'), 'w') as fh:
         fh.write('\n'.join(out))
     print('wrote %d converter contracts' % len(T))
